@@ -12,7 +12,14 @@ reg = {}
 for p in props:
     mods = sorted(f[:-5] for f in os.listdir(LEAN + "/ZkProofs/Props") if re.fullmatch(p + r"\w*\.lean", f))
     # modules that are not named after a property but belong to one (module, namespace)
-    EXTRA = {"C08": [("Concrete", "ConcreteFacts")]}
+    EXTRA = {"C08": [("Concrete", "ConcreteFacts")],
+             # the concrete BLS12-381 instance: G1 / G2 with the executable L0 operations are the elliptic-curve groups
+             # (Mathlib's group law), prime-order modules over the scalar field; every model function commutes with
+             # homomorphisms of its algebra (Transfer); the property theorems restated for the executable instance
+             "C02": [("ConcreteG1", "ConcreteG1")],
+             "C01": [("ConcreteG2", "ConcreteG2"), ("ConcreteBridge", "Bridge")],
+             "C10": [("Transfer", "Transfer")]}
+    EXTRA = {k: [(m, ns) for m, ns in v if os.path.exists(LEAN + "/ZkProofs/Props/%s.lean" % m)] for k, v in EXTRA.items()}
     thms = []
     nsmap = {m: m for m in mods}
     for m, ns in EXTRA.get(p, []):
@@ -35,7 +42,10 @@ for p in props:
               "assumptions": (["rug/GMP integer semantics as modelled in ZkModel/L0/IntArith.lean (powMod/invMod/isqrt specs are PROVEN: Zk.Cl.arithOK)",
                                "the model's Miller-Rabin stands in for GMP is_probably_prime/next_prime (oracle hypothesis explicit in the theorems that need primality)",
                                "SHA-256 as modelled in L0 (KAT-pinned)"] if p > "C12" else
-                              ["Lawful env pair for the concrete BLS12-381 environment (L0)"]),
+                              ["Lawful env pair for the concrete BLS12-381 environment (L0); PROVEN for it: scalar field, canonical codecs, "
+                               "G1 and G2 are the elliptic-curve groups with the executable operations and prime-order modules over the scalar "
+                               "field (Zk.ConcreteG1, Zk.ConcreteG2), every model function commutes with homomorphisms (Zk.Transfer); still "
+                               "ASSUMED: the pairing is bilinear and non-degenerate, hash_to_curve lands in the prime-order subgroup"]),
               "theorems": thms}
     print(p, len(thms), "theorems", mods)
 json.dump(reg, open("/verif/theorems.json", "w"), indent=1)
